@@ -392,6 +392,17 @@ func ZZC05Script() {
 			c.stores[0].Closed = false
 			c.nodes[0] = zzOpenNode(c.stores[0])
 			rt.Assert(c.nodes[0].balloon.Version() == accepted, "version-survives-restart")
+			if rt.Symbolic() {
+				// Raft re-delivers its log after a restart (natively the real Raft does so while
+				// the node is opened): every entry is already applied and must change nothing
+				for _, e := range c.log {
+					ent := e
+					if !rt.NoPanic(func() { c.deliver(0, ent) }, "log-replay-after-restart") {
+						return
+					}
+				}
+				rt.Assert(c.nodes[0].balloon.Version() == accepted, "log-replay-after-restart-changes-nothing")
+			}
 			rt.Reach("restarted")
 		case 3: // query
 			if accepted == 0 {
